@@ -322,6 +322,33 @@ class Top(Component):
       M(s.a.touch) < U(up_w),              # method constraint of the parent on a method port of a child
     )
 
+    # an ancestor's ordering constraint on an update BLOCK of a child, a method constraint on a non-blocking INTERFACE of a child
+    s.add_constraints(
+      U(up_w) < U(s.a.get_update_block("up_lb_out")),
+      M(s.l[1].nb) < U(up_o2),
+    )
+
+    # a function of the top that reads a port two levels down, called from a block
+    s.o9 = OutPort(Bits4)
+
+    @s.func
+    def f_deep(x):
+      s.o9 @= s.mid.b.out ^ x
+
+    @update
+    def up_func():
+      f_deep(s.in_)
+
+    # a block that loops over the list of children (the list elements themselves are in its read set)
+    s.o10 = OutPort(Bits4)
+
+    @update
+    def up_loop():
+      t = Bits4(0)
+      for m in s.l:
+        t = t ^ m.out
+      s.o10 @= t
+
     @update
     def up_slices():
       s.o7 @= concat(s.a.out[1:3], s.l[0].out[3:4], s.mid.b.lb_seen[0])   # slices of child ports that occur ONLY in this block
